@@ -350,7 +350,8 @@ public:
 	void VisitKeys(TCallback&& fn)
 	{
 		for (const auto& keyVal : this->mNode->GetObject()) {
-			fn(keyVal.name.GetString());
+			// The key is passed with its length (it may contain null characters)
+			fn(key_type(keyVal.name.GetString(), keyVal.name.GetStringLength()));
 		}
 	}
 
@@ -437,7 +438,7 @@ public:
 
 protected:
 	[[nodiscard]] typename RapidJsonNode::MemberIterator FindMember(const key_type& key) const {
-		return this->mNode->GetObject().FindMember(key.c_str());
+		return this->mNode->GetObject().FindMember(MakeKeyRef(key));
 	}
 
 	[[nodiscard]] typename RapidJsonNode::MemberIterator FindMember(key_raw_ptr key) const {
@@ -447,7 +448,7 @@ protected:
 	[[nodiscard]] RapidJsonNode* LoadJsonValue(const key_type& key) const
 	{
 		const auto jObject = this->mNode->GetObject();
-		auto it = jObject.FindMember(key.c_str());
+		auto it = jObject.FindMember(MakeKeyRef(key));
 		return it == jObject.MemberEnd() ? nullptr : &it->value;
 	}
 
@@ -461,7 +462,7 @@ protected:
 	bool SaveJsonValue(const key_type& key, RapidJsonNode&& jsonValue) const
 	{
 		// Checks that object was not saved previously under the same key
-		assert(this->mNode->GetObject().FindMember(key.c_str()) == this->mNode->GetObject().MemberEnd());
+		assert(this->mNode->GetObject().FindMember(MakeKeyRef(key)) == this->mNode->GetObject().MemberEnd());
 
 		auto jsonKey = RapidJsonNode(key.data(), static_cast<rapidjson::SizeType>(key.size()), mAllocator);
 		this->mNode->AddMember(std::move(jsonKey), std::move(jsonValue), mAllocator);
@@ -478,6 +479,13 @@ protected:
 	}
 
 private:
+	/// <summary>
+	/// Makes a reference to the key with its length (the key may contain null characters).
+	/// </summary>
+	static RapidJsonNode MakeKeyRef(const key_type& key) {
+		return RapidJsonNode(typename RapidJsonNode::StringRefType(key.data(), static_cast<rapidjson::SizeType>(key.size())));
+	}
+
 	TAllocator& mAllocator;
 };
 
